@@ -274,6 +274,83 @@ theorem c11_confidence_unit_and_one_only_strict (env : Env J S C) (cfg : Cfg) (s
       have hb := repairConfidence_bounds ns.length
       rw [hs]; simp; grind
 
+/-- "1.0 only for strict", read from the other end: a report of `fold_enhanced` that shows full confidence, or names
+    STRICT as the strategy used, says that nothing was extracted, repaired or dropped — the raw text itself, with only the
+    white space around it removed (`strip`, see `c11_strip_removes_white_space_only`), is what `json.loads` read, and the
+    structure is what `model_validate` made of exactly that value; STRICT was among the requested strategies.  (A text
+    with a byte order mark or a zero-width character in front of the JSON is not such a text:
+    `c11_invisible_code_points_are_not_white_space`.) -/
+theorem c11_full_confidence_means_the_text_itself_is_json (env : Env J S C) (cfg : Cfg) (st st' : Stats) (raw : Text)
+    (call : List Strategy) (r : FoldedX S C) (h : (foldX env cfg st raw call).res = .ok (st', r))
+    (hc : r.confidence = 1 ∨ r.strategyUsed = some .strict) :
+    .strict ∈ effective cfg call ∧ r.valid = true ∧ r.strategyUsed = some .strict ∧ r.confidence = 1 ∧
+    ∃ d v, env.loads (strip raw) = .ok d ∧ env.validate d = .ok v ∧ r.struct = some v := by
+  have hconf := c11_confidence_unit_and_one_only_strict env cfg st st' raw call r h
+  have hvalid : r.valid = true ∧ r.strategyUsed = some .strict := by
+    rcases hc with hc | hc
+    · exact hconf.2.2.1.mp hc
+    · cases hv : r.valid with
+      | true => exact ⟨rfl, hc⟩
+      | false =>
+        have := (c11_invalid_has_no_structure_and_a_trace_enhanced env cfg st st' raw call r h hv).2.2.2.1
+        rw [this] at hc; cases hc
+  obtain ⟨s, hs, d, v, hst, hval, hder, hused, _, _⟩ :=
+    c11_valid_is_validated_enhanced env cfg st st' raw call r h hvalid.1
+  rw [hvalid.2] at hused
+  cases hused
+  exact ⟨hs, hvalid.1, hvalid.2, hconf.2.2.1.mpr hvalid, d, v, hder, hval, hst⟩
+
+example : ∃ st' r, (foldX toyEnv (Cfg.new []) Stats.zero rawClean []).res = .ok (st', r) ∧ r.confidence = 1 ∧
+    toyEnv.loads (strip rawClean) = .ok 1 := ⟨_, _, rfl, rfl, rfl⟩
+
+/-- The same for the plain `fold`, which has no `strategy_used` field: the statistics say which strategy succeeded.  When
+    a valid plain fold leaves the success counter of every strategy other than STRICT where it was, the raw text itself
+    (white space around it aside) is what `json.loads` read and the structure is `model_validate` of that value. -/
+theorem c11_plain_strict_success_means_the_text_itself_is_json (env : Env J S C) (cfg : Cfg) (st st' : Stats)
+    (raw : Text) (call : List Strategy) (r : Folded S) (h : (fold env cfg st raw call).res = .ok (st', r))
+    (hv : r.valid = true) (hother : ∀ s, s ≠ .strict → st'.succ s = st.succ s) :
+    .strict ∈ effective cfg call ∧ st'.succ .strict = st.succ .strict + 1 ∧
+    ∃ d v, env.loads (strip raw) = .ok d ∧ env.validate d = .ok v ∧ r.struct = some v := by
+  rcases foldBoth_spec env cfg st raw call with ⟨tr, _, _, hp⟩ | ⟨tpre, pre, s, post, x, hstrs, _, hr, hxv, _, hp⟩
+  · rw [hp] at h; simp at h; obtain ⟨_, rfl⟩ := h; simp at hv
+  · obtain ⟨d, v, hshape, hval, hder, _⟩ := attemptX_valid env raw s x hr hxv
+    rw [hp] at h
+    simp at h
+    obtain ⟨rfl, rfl⟩ := h
+    have hs : s = .strict := by
+      apply Classical.byContradiction
+      intro hne
+      have := hother s hne
+      simp [bump] at this
+    subst hs
+    simp only [SuccessShape] at hshape
+    refine ⟨by simp [hstrs], by simp [bump], d, v, hder, hval, ?_⟩
+    rw [hshape]
+
+example : ∃ st' r, (fold toyEnv (Cfg.new []) Stats.zero rawClean []).res = .ok (st', r) ∧ r.valid = true ∧
+    (∀ s, s ≠ .strict → st'.succ s = Stats.zero.succ s) := ⟨_, _, rfl, rfl, by intro s hs; cases s <;> simp_all [bump, Stats.zero]⟩
+
+/-- `str.strip()` as the model has it removes white space and nothing else: the text is `a ++ strip t ++ b` with `a`
+    and `b` all white space (`str.isspace`), and what remains neither starts nor ends with white space. -/
+theorem c11_strip_removes_white_space_only (t : Text) :
+    ∃ a b, t = a ++ strip t ++ b ∧ (∀ c ∈ a, isSpace c = true) ∧ (∀ c ∈ b, isSpace c = true) ∧
+      (∀ c, (strip t).head? = some c → isSpace c = false) ∧ (∀ c, (strip t).getLast? = some c → isSpace c = false) :=
+  strip_spec t
+
+/-- Code points that look like nothing but are not white space — byte order mark, zero-width space / joiners, word
+    joiner, soft hyphen, directional marks, NUL, DEL, noncharacters, a tag space, the braille blank: `strip` keeps them,
+    so a text that starts (or ends) with one of them reaches `json.loads` with it. -/
+theorem c11_invisible_code_points_are_not_white_space :
+    (∀ c ∈ [0xfeff, 0x200b, 0x200c, 0x200d, 0x2060, 0xad, 0x180e, 0x61c, 0x200e, 0x200f, 0x202a, 0x202c, 0x2061, 0x2066,
+             0x2069, 0xfff9, 0, 8, 0x1b, 0x7f, 0x84, 0x86, 0xfffe, 0xffff, 0xfffd, 0xe000, 0xe0001, 0xe0020, 0x1d173,
+             0x2800, 0x3164, 0x115f, 0xfe0f, 0x34f], isSpace c = false) ∧
+    (∀ (c : Nat) (t : Text), isSpace c = false → (strip (c :: t)).head? = some c) := by
+  refine ⟨by decide, ?_⟩
+  intro c t hc
+  exact strip_keeps_head c t hc
+
+example : strip [0xfeff, 123, 125, 32] = [0xfeff, 123, 125] := by decide
+
 /-! ## Which strategy decides -/
 
 /-- The result is that of the first requested strategy that succeeds: every strategy before it raised or
@@ -519,6 +596,41 @@ theorem c11_heal_confidence_unit_and_one_only_strict (env : Env J S C) (cfg : Cf
       have hr1 : r.confidence = 1 := by grind
       obtain ⟨hv, hs⟩ := hone.mp hr1
       exact ⟨_, rfl, by simpa [healedFold] using hv, by simpa [healedFold] using hs⟩
+
+/-- Through the healing loop too, STRICT (hence full confidence) is only ever named for text that is JSON as it stands:
+    when the folded protein `heal` hands on names STRICT — or `final_confidence` is 1 — the text the generator produced
+    at the successful attempt `j`, white space around it aside, is what `json.loads` read, and the structure is
+    `model_validate` of exactly that value. -/
+theorem c11_heal_names_strict_only_for_text_that_is_json (env : Env J S C) (cfg : Cfg) (st st' : Stats)
+    (decay : Rat) (maxRetries : Nat) (gen : Nat → Text) (h : HealOut S C)
+    (hres : (heal env cfg st decay maxRetries gen).res = .ok (st', h))
+    (hs : h.finalConfidence = 1 ∨ ∃ f, h.folded = some f ∧ f.strategyUsed = some .strict) :
+    ∃ f j, h.folded = some f ∧ j ≤ maxRetries ∧ f.raw = gen j ∧ f.valid = true ∧ f.strategyUsed = some .strict ∧
+      .strict ∈ effective cfg [] ∧
+      ∃ d v, env.loads (strip (gen j)) = .ok d ∧ env.validate d = .ok v ∧ f.struct = some v := by
+  have hstrict : ∃ f, h.folded = some f ∧ f.strategyUsed = some .strict := by
+    rcases hs with hs | hs
+    · obtain ⟨f, hf, _, hu⟩ :=
+        (c11_heal_confidence_unit_and_one_only_strict env cfg st st' decay maxRetries gen h hres).2.2.2.2 hs
+      exact ⟨f, hf, hu⟩
+    · exact hs
+  obtain ⟨f, hf, hu⟩ := hstrict
+  have hnd : h.outcome ≠ .degraded := by
+    intro hd
+    have := (c11_heal_degraded_has_nothing env cfg st st' decay maxRetries gen h hres hd).1
+    rw [this] at hf; cases hf
+  obtain ⟨j, stj, stj', r, hj, hfold, hrv, hfolded, _, _, _, _, _⟩ :=
+    c11_heal_result_is_a_valid_fold env cfg st st' decay maxRetries gen h hres hnd
+  rw [hfolded] at hf
+  cases hf
+  have hu' : r.strategyUsed = some .strict := hu
+  obtain ⟨hmem, _, _, _, d, v, hl, hval, hstr⟩ :=
+    c11_full_confidence_means_the_text_itself_is_json env cfg stj stj' (gen j) [] r hfold (Or.inr hu')
+  have hraw := (c11_raw_is_echoed env cfg stj (gen j) []).2 stj' r hfold
+  exact ⟨healedFold decay j r, j, hfolded, hj, hraw, hrv, hu, hmem, d, v, hl, hval, hstr⟩
+
+example : ∃ st' h f, (heal toyEnv (Cfg.new []) Stats.zero (1 / 10) 3 (fun k => if k < 1 then rawBad else rawClean)).res = .ok (st', h) ∧
+    h.folded = some f ∧ f.strategyUsed = some .strict ∧ toyEnv.loads (strip rawClean) = .ok 1 := ⟨_, _, _, rfl, rfl, rfl, rfl⟩
 
 /-! ## The coercion helper cannot make values up -/
 
@@ -1391,5 +1503,28 @@ theorem c11_extracted_wrapper_facts_agree :
     Gen.ChaperoneTables.exportsAreTheDefinitions = some true ∧
     Gen.ChaperoneTables.omittedArgumentIsNone = some true := by
   refine ⟨by decide, by decide, by decide, by decide, by decide, by decide, by decide⟩
+
+/-- What STRICT tolerates around clean JSON, EVALUATED on the real class through its public API on every run
+    (`fold` / `fold_enhanced` with `[STRICT]` on a nested document with one code point in front of it / behind it; probe
+    domain = every control, format and separator code point of Unicode, the neighbours of every white-space code point,
+    noncharacters, private-use, tag and blank-looking code points, a few ordinary characters): both folds accept the
+    text exactly when the code point is white space in the model's sense (`isSpace`, what `strip` removes) — a byte
+    order mark, a zero-width space, a NUL are not skipped by either fold.  And Python's `str.isspace`, evaluated over
+    ALL code points, is the model's `isSpace`.  (kind: table; source → Gen → model) -/
+theorem c11_extracted_strict_trims_white_space_only :
+    (∃ dom, Gen.ChaperoneTables.strictProbeDomain = some dom ∧ 250 ≤ dom.length ∧ 0xfeff ∈ dom ∧ 0x200b ∈ dom ∧
+      Gen.ChaperoneTables.strictPlainAcceptsLeading = some (dom.filter isSpace) ∧
+      Gen.ChaperoneTables.strictPlainAcceptsTrailing = some (dom.filter isSpace) ∧
+      Gen.ChaperoneTables.strictEnhancedAcceptsLeading = some (dom.filter isSpace) ∧
+      Gen.ChaperoneTables.strictEnhancedAcceptsTrailing = some (dom.filter isSpace)) ∧
+    (∃ rs, Gen.ChaperoneTables.pythonSpaceRanges = some rs ∧
+      ∀ c, isSpace c = rs.any (fun r => r.1 ≤ c && c ≤ r.2)) := by
+  refine ⟨⟨_, rfl, by decide +kernel, by decide +kernel, by decide +kernel, by decide +kernel, by decide +kernel,
+    by decide +kernel, by decide +kernel⟩, ⟨_, rfl, ?_⟩⟩
+  intro c
+  simp only [isSpace, List.any_cons, List.any_nil]
+  rw [Bool.eq_iff_iff]
+  simp
+  omega
 
 end Operon.Chaperone
